@@ -19,7 +19,13 @@ from .report import Checker, finish
 def run_property(prop: str, repo: Repo, tier: str, exc_mode: str, cg=None) -> Checker:
     ck = Checker(prop, repo, cg=cg, tier=tier, exc_mode=exc_mode)
     mod = importlib.import_module("sa.rules.%s" % prop.lower())
-    mod.check(ck)
+    try:
+        mod.check(ck)
+    except AnalysisError as e:
+        ck.analysis_errors.append(str(e))
+    if ck.analysis_errors and not any(o.verdict == "violation" for o in ck.obs):
+        # nothing was decided against the tree and part of the analysis could not run: fail closed
+        raise AnalysisError("; ".join(ck.analysis_errors))
     return ck
 
 
@@ -29,6 +35,7 @@ def main(argv=None) -> int:
     ap.add_argument("--tier", default=os.environ.get("VERIF_TIER", "quick"))
     ap.add_argument("--replay", default=None)
     ap.add_argument("--repo", default=None)
+    ap.add_argument("--no-evidence", action="store_true", help="development: do not rewrite evidence/<id>.json")
     args = ap.parse_args(argv)
     prop = args.prop.upper()
     tier = args.tier if args.tier in ("quick", "thorough") else "quick"
@@ -79,7 +86,7 @@ def main(argv=None) -> int:
                     print("ANALYSIS-ERROR self-validation: %s" % b)
                 finish(ck, t0, seed, selfval)
                 return 2
-        return finish(ck, t0, seed, selfval)
+        return finish(ck, t0, seed, selfval, replay="no-evidence" if args.no_evidence else None)
     except AnalysisError as e:
         print("ANALYSIS-ERROR property=%s %s" % (prop, e))
         return 2
